@@ -555,7 +555,8 @@ theorem cumsum_pick_support_u0_witness : pickFromCumSum ([0, 1] : List ℝ) 0 = 
 /-- `multinomial_counts_sum`: for ALL draws, `randMultinomial(n, probs)` returns `n` states in
 `0..probs.size()` (the last value being the code's "not found" state) — each the inverse-cdf image
 of its own draw — and the counts of the states add up to `n` -/
-theorem multinomial_counts_sum {α : Type} [Scalar α] (probs : List α) (n : Nat) (draws : List α) (hd : n ≤ draws.length) :
+theorem multinomial_counts_sum {α : Type} [Scalar α] (probs : List α) (n : Nat) (draws : List α) (hd : n ≤ draws.length)
+    (hok : multinomialRaises probs n = false) :
     ∃ states, randMultinomial probs n draws = .ok states ∧ states.length = n ∧
       states = (draws.take n).map (multinomialState probs) ∧
       (∀ s ∈ states, s ≤ probs.length) ∧ (counts probs.length states).sum = n ∧
@@ -565,7 +566,7 @@ theorem multinomial_counts_sum {α : Type} [Scalar α] (probs : List α) (n : Na
   have hlen : ((draws.take n).map (multinomialState probs)).length = n := by simp [hd]
   have hsum := counts_sum probs.length _ hle
   rw [hlen] at hsum
-  refine ⟨_, randMultinomial_eq probs n draws hd, hlen, rfl, hle, hsum, ?_⟩
+  refine ⟨_, randMultinomial_eq probs n draws hok hd, hlen, rfl, hle, hsum, ?_⟩
   simp only [countsOk, Bool.and_eq_true, List.all_eq_true, decide_eq_true_eq, beq_iff_eq]
   exact ⟨hle, hsum⟩
 
@@ -581,12 +582,44 @@ theorem multinomial_state_law (pre : List ℝ) (x : ℝ) (post : List ℝ) (r : 
 /-- the executable form (`FAIL:multinomial_state_law` in the driver): for ALL draws and ALL
 `probs`, every state `randMultinomial` returns lies on the step of the running sums of
 `probs/Σprobs` on which its own draw falls (`c[j-1] < r ≤ c[j]`; the "not found" state above all) -/
-theorem multinomial_state_law_pred (probs : List ℝ) (n : Nat) (draws : List ℝ) (hd : n ≤ draws.length) :
+theorem multinomial_state_law_pred (probs : List ℝ) (n : Nat) (draws : List ℝ) (hd : n ≤ draws.length)
+    (hok : multinomialRaises probs n = false) :
     ∃ states, randMultinomial probs n draws = .ok states ∧
       List.Forall₂ (fun r s => multinomialLawOk probs r s = true) (draws.take n) states := by
-  refine ⟨_, randMultinomial_eq probs n draws hd, ?_⟩
+  refine ⟨_, randMultinomial_eq probs n draws hok hd, ?_⟩
   rw [List.forall₂_map_right_iff]
   exact List.forall₂_same.mpr (fun r _ => multinomialState_law probs r)
+
+/-- without a positive sum the probabilities cannot be scaled: a non-empty request is refused
+(after the `fix:` of audit round 2), whatever the draws — also for an empty `probs` -/
+theorem multinomial_refuses_nonpositive_sum {α : Type} [Scalar α] (probs : List α) (n : Nat) (draws : List α)
+    (h : multinomialRaises probs n = true) : randMultinomial probs n draws = .error .bpp := by
+  simp [randMultinomial, h]
+
+/-- the documented range, at full strength: for non-negative `probs` with a positive sum and draws
+`≤ 1` (exact arithmetic) every returned state is one of `0 … x-1` -/
+theorem multinomial_states_in_range (probs : List ℝ) (n : Nat) (draws : List ℝ) (hd : n ≤ draws.length)
+    (hw : ∀ y ∈ probs, 0 ≤ y) (hS : 0 < probs.sum) (hr : ∀ r ∈ draws, r ≤ 1) :
+    ∃ states, randMultinomial probs n draws = .ok states ∧ states.length = n ∧ ∀ s ∈ states, s < probs.length := by
+  have hok : multinomialRaises probs n = false := by
+    simp only [multinomialRaises, sumFromZero_real, ScalarReal.ofInt_eq, Int.cast_zero, Bool.and_eq_false_iff,
+      Bool.not_eq_false', ScalarReal.ltb_iff]
+    exact Or.inr hS
+  refine ⟨_, randMultinomial_eq probs n draws hok hd, by simp [hd], ?_⟩
+  intro s hs
+  obtain ⟨r, hrm, rfl⟩ := List.mem_map.mp hs
+  exact multinomialState_lt probs r hw hS (hr r (List.mem_of_mem_take hrm))
+
+/-- before the repair: all-zero probabilities gave the out-of-range state `probs.size()`
+(`multinom 4 0 0 0` answered `3 3 3 3` on the unchanged tree; corpus/C18/multinomial-zero-sum.txt).
+Over the reals `0/0 = 0`, so the witness uses a draw `> 0`; in floating point `0/0` is NaN and every
+draw gives this state. -/
+theorem multinomial_unrepaired_witness :
+    randMultinomialUnrepaired ([0, 0, 0] : List ℝ) 1 [1 / 2] = .ok [3] := by
+  have h : multinomialState ([0, 0, 0] : List ℝ) (1 / 2) = 3 := by
+    simp only [multinomialState, sumFromZero_real, invCdf, sadd, sdiv, ScalarReal.ofInt_eq, ScalarReal.leb_iff]
+    norm_num
+  simp only [randMultinomialUnrepaired, multinomialLoop, h]
 
 /-- with a draw `r ≤ 1` the "not found" state never occurs (exact arithmetic) -/
 theorem multinomial_state_range (probs : List ℝ) (r : ℝ) (hw : ∀ y ∈ probs, 0 ≤ y) (hS : 0 < probs.sum) (hr : r ≤ 1) :
